@@ -188,6 +188,8 @@ func layerfileStage(seed uint64, tier string) error {
 			runs++
 		}
 	}
-	fmt.Printf("STAT {\"layerfile_runs\": %d, \"layerfile_emissions\": %d}\n", runs, emissions)
+	fc, fr, fa := layerfileFaults(tmp, tier)
+	fmt.Printf("STAT {\"layerfile_runs\": %d, \"layerfile_emissions\": %d, \"layerfile_fault_cases\": %d, \"layerfile_faults_reported\": %d, \"layerfile_faults_survived\": %d}\n",
+		runs, emissions, fc, fr, fa)
 	return nil
 }
